@@ -201,11 +201,14 @@ fn pair_dist(r: &R, out: &mut std::collections::BTreeMap<(String, String), f64>)
 }
 
 thread_local! { static SCALE: std::cell::Cell<f64> = const { std::cell::Cell::new(1.0) }; }
+thread_local! { static REAL_SHAPE: std::cell::RefCell<Option<String>> = const { std::cell::RefCell::new(None) }; }
 
 struct Q {
     reqs: Vec<String>,
     real: Vec<Result<R, String>>,
     scale: Vec<f64>,
+    /// the real arena with every present length written as 0, in `ar.dump` layout (None: not a tree / not encodable)
+    shape: Vec<Option<String>>,
 }
 
 fn one_matrix(names: &[String], cells: &[f64], ultrametric: bool, q: &mut Q, rep: &mut Report, label: &str) {
@@ -265,6 +268,14 @@ fn one_matrix_scaled(names: &[String], cells: &[f64], ultrametric: bool, q: &mut
             if let Err(e) = check_inv(&slots, true) {
                 rep.oracle("well-formed", &inv_sig(&e), &req, &e);
             }
+            // the arena itself (slot numbers, child order, which records exist), lengths written as 0: compared with the arena
+            // the model builds through add / add_child / merge_children (UPG.upgmaShape)
+            let mut z = slots.clone();
+            for sl in z.iter_mut() {
+                if sl.parent_edge.is_some() { sl.parent_edge = Some(0.0); }
+                if let Some(ce) = sl.child_edges.as_mut() { for e in ce.iter_mut() { e.1 = 0.0; } }
+            }
+            REAL_SHAPE.with(|c| *c.borrow_mut() = enc_arena_scaled(&z).ok());
             match live_roots(&slots).first().and_then(|x| rose_of(&slots, *x)) {
                 Some(rose) => Ok(from_rose(&rose)),
                 None => Err("no-root".into()),
@@ -360,6 +371,7 @@ fn one_matrix_scaled(names: &[String], cells: &[f64], ultrametric: bool, q: &mut
         return;
     }
     q.reqs.push(req);
+    q.shape.push(if real.is_ok() { REAL_SHAPE.with(|c| c.borrow_mut().take()) } else { None });
     q.real.push(real);
     q.scale.push(scale);
 }
@@ -368,6 +380,8 @@ fn flush(q: &mut Q, driver: &str, rep: &mut Report) {
     if q.reqs.is_empty() {
         return;
     }
+    let mut shape_reqs: Vec<String> = vec![];
+    let mut shape_expect: Vec<String> = vec![];
     match run_driver(driver, &q.reqs) {
         Err(e) => rep.mismatch("c15.upgma", "driver-failed", "", "", &e),
         Ok(ans) => {
@@ -389,6 +403,10 @@ fn flush(q: &mut Q, driver: &str, rep: &mut Report) {
                             continue;
                         }
                         rep.count(if dyadic { "model_compared_exact_dyadic" } else { "model_compared_1e-9" });
+                        if let Some(sh) = &q.shape[i] {
+                            shape_reqs.push(q.reqs[i].replacen("up.run", "up.shape", 1));
+                            shape_expect.push(format!("ok {sh}"));
+                        }
                         let exact = dyadic;
                         match parse_model(tree) {
                             None => rep.mismatch("c15.upgma", "undecodable", &q.reqs[i], "", m),
@@ -410,9 +428,23 @@ fn flush(q: &mut Q, driver: &str, rep: &mut Report) {
             }
         }
     }
+    if !shape_reqs.is_empty() {
+        match run_driver(driver, &shape_reqs) {
+            Err(e) => rep.mismatch("c15.upgma", "driver-failed", "", "", &e),
+            Ok(ans) => {
+                rep.count_n("arena_shapes_compared", ans.len() as u64);
+                for i in 0..ans.len() {
+                    if ans[i] != shape_expect[i] {
+                        rep.mismatch("c15.upgma", "up.shape:differs", &shape_reqs[i], &shape_expect[i], &ans[i]);
+                    }
+                }
+            }
+        }
+    }
     q.reqs.clear();
     q.real.clear();
     q.scale.clear();
+    q.shape.clear();
 }
 
 /// ultrametric matrix from a random clock-like tree with integer node heights
@@ -459,7 +491,7 @@ pub fn run(thorough: bool, seed: u64, driver: &str, rep: &mut Report) {
     // corpus (always first): decimal ties whose size-weighted average is rounded an ulp BELOW an earlier merge height — the
     // unrepaired crate returned a branch of -5.55e-17 here (found by the decimal stream, see known_findings.json)
     {
-        let mut q = Q { reqs: vec![], real: vec![], scale: vec![] };
+        let mut q = Q { reqs: vec![], real: vec![], scale: vec![], shape: vec![] };
         for (n, cells) in [(4usize, vec![1.0, 7.0, 7.0, 7.0, 7.0, 7.0]), (4, vec![3.0, 7.0, 7.0, 7.0, 7.0, 7.0]), (5, vec![1.0, 3.0, 3.0, 3.0, 3.0, 3.0, 3.0, 3.0, 3.0, 3.0]), (4, vec![1.0, 9.0, 9.0, 9.0, 9.0, 9.0])] {
             let names: Vec<String> = (0..n).map(|i| format!("c{i}")).collect();
             one_matrix_scaled(&names, &cells, false, &mut q, rep, "corpus-decimal-ties", TENTHS);
@@ -478,7 +510,7 @@ pub fn run(thorough: bool, seed: u64, driver: &str, rep: &mut Report) {
         n_workers(),
         "C15",
         |job, rep| {
-            let mut q = Q { reqs: vec![], real: vec![], scale: vec![] };
+            let mut q = Q { reqs: vec![], real: vec![], scale: vec![], shape: vec![] };
             match job {
                 Job::Exhaustive { n, maxv } => {
                     let cells_n = tri(n);
